@@ -311,6 +311,13 @@ func (w *World) execNetOp(ctx context.Context, toks []string) (bool, error) {
 		res := guarded(func() error { return s.Load(ctx, n) })
 		ok := w.quiesce(s)
 		w.printf("liveloaded %d %s quiesce=%v\n", p, res, ok)
+	case "loadasync":
+		// loadasync p : Load(-1) on the open store, not waited for (a fetch of p is being held: the load
+		// sits in the middle of a head, holding the join mutex)
+		p := atoi(toks[1])
+		if s := w.stores[p]; s != nil {
+			go func() { _ = guarded(func() error { return s.Load(w.ctx, -1) }) }()
+		}
 	case "final":
 		w.printf("final\n")
 	case "cut", "heal":
